@@ -192,6 +192,9 @@ def execute(prop, tier, seed, workers=None, replay=None, limit=None):
                       default=str)
         viol_lines.append((sig, path, repro, v.get("detail", "")))
 
+    with open(os.path.join(ROOT, "replays", prop, f"{tier}_signatures.json"), "w") as fh:
+        json.dump([{"clause": sig[0], "key": sig[1], "n": len(occ), "detail": occ[0][1].get("detail", "")[:1500]}
+                   for sig, occ in new_sigs], fh, indent=1, default=str)
     wall = time.time() - t0
     cov = aggregate(mod, plan, cases, results, seed)
     cov["known_findings_hit"] = {fid: cnt for fid, (f, cnt) in known_hits.items()}
